@@ -11,6 +11,7 @@ import (
 func c19Round3(c *Ctx) {
 	c19LightBlockHeight(c)
 	c19NoBackwards(c)
+	c19ResultFields(c)
 	c19MetaTxSigned(c)
 	c19MalformedResults(c)
 	const pk = "consensus/cometbft/stateless"
